@@ -15,6 +15,10 @@ import (
 type methodCache[R CacheableResult] struct {
 	mu           sync.Mutex
 	cachedValues map[string]*cacheEntry[R]
+	// generation counts invalidations. A result requested under an older
+	// generation may predate the change that caused the invalidation, and
+	// must not be cached (see putIfCurrent).
+	generation uint64
 }
 
 type cacheEntry[R CacheableResult] struct {
@@ -54,15 +58,43 @@ func (mc *methodCache[R]) put(key string, result R) {
 	}
 }
 
+// currentGeneration returns the value to pass to putIfCurrent. It must be
+// read before the request whose result will be cached is sent.
+func (mc *methodCache[R]) currentGeneration() uint64 {
+	mc.mu.Lock()
+	defer mc.mu.Unlock()
+	return mc.generation
+}
+
+// putIfCurrent is like put, but drops the result if the cache was invalidated
+// since generation was read: the result may have been produced before the
+// change that the invalidating notification announced.
+func (mc *methodCache[R]) putIfCurrent(key string, result R, generation uint64) {
+	mc.mu.Lock()
+	defer mc.mu.Unlock()
+	if mc.generation != generation {
+		return
+	}
+	if mc.cachedValues == nil {
+		mc.cachedValues = make(map[string]*cacheEntry[R])
+	}
+	mc.cachedValues[key] = &cacheEntry[R]{
+		result:     result,
+		receivedAt: time.Now(),
+	}
+}
+
 func (mc *methodCache[R]) invalidate() {
 	mc.mu.Lock()
 	defer mc.mu.Unlock()
+	mc.generation++
 	clear(mc.cachedValues)
 }
 
 func (mc *methodCache[R]) invalidateKey(key string) {
 	mc.mu.Lock()
 	defer mc.mu.Unlock()
+	mc.generation++
 	delete(mc.cachedValues, key)
 }
 
